@@ -121,7 +121,7 @@ func main() {
 		if set.Name == "ks" {
 			// the fixed sweep
 			for i := range model.HostileStrings {
-				for _, tn := range []string{"ks.t.Prims", "ks.t.Containers", "ks.t.U", "ks.t.Refs", "ks.t.TString", "ks.t.TBytes", "ks.t.F1", "ks.t.KeyPart"} {
+				for _, tn := range []string{"ks.kt.Prims", "ks.kt.Containers", "ks.kt.U", "ks.kt.Refs", "ks.kt.TString", "ks.kt.TBytes", "ks.kt.F1", "ks.kt.KeyPart"} {
 					g.Sweep = i
 					g.Hostile = 0
 					v := sweepValue(set, g, tn, i)
@@ -202,32 +202,32 @@ func sweepValue(set *bridge.Set, g *model.Gen, tn string, i int) *model.Value {
 	byt := &model.Value{Kind: model.KBytes, S: b}
 	base := model.Simplest(set.Schema, corpus.R(tn), 0)
 	switch tn {
-	case "ks.t.Prims":
+	case "ks.kt.Prims":
 		base.Fields["s"] = str
 		base.Fields["by"] = byt
-	case "ks.t.Containers":
+	case "ks.kt.Containers":
 		base.Fields["as"] = &model.Value{Kind: model.KArray, Elems: []*model.Value{str, model.String("a")}}
 		base.Fields["ab"] = &model.Value{Kind: model.KArray, Elems: []*model.Value{byt}}
 		base.Fields["ms"] = &model.Value{Kind: model.KMap, Entries: map[string]*model.Value{"k": str}}
 		base.Fields["mby"] = &model.Value{Kind: model.KMap, Entries: map[string]*model.Value{"k": byt}}
-		base.Fields["ml"] = &model.Value{Kind: model.KMap, Entries: map[string]*model.Value{hs: model.Simplest(set.Schema, corpus.R("ks.t.Leaf"), 0)}}
+		base.Fields["ml"] = &model.Value{Kind: model.KMap, Entries: map[string]*model.Value{hs: model.Simplest(set.Schema, corpus.R("ks.kt.Leaf"), 0)}}
 		base.Fields["atr"] = &model.Value{Kind: model.KArray, Elems: []*model.Value{str}}
-	case "ks.t.U":
+	case "ks.kt.U":
 		if i%2 == 0 {
 			return &model.Value{Kind: model.KUnion, Alias: "string", Member: str}
 		}
 		return &model.Value{Kind: model.KUnion, Alias: "bytes", Member: byt}
-	case "ks.t.Refs":
+	case "ks.kt.Refs":
 		base.Fields["tr"] = str
 		base.Fields["trb"] = byt
-		base.Fields["u"] = &model.Value{Kind: model.KUnion, Alias: "ks.t.TString", Member: str}
-	case "ks.t.TString":
+		base.Fields["u"] = &model.Value{Kind: model.KUnion, Alias: "ks.kt.TString", Member: str}
+	case "ks.kt.TString":
 		return str
-	case "ks.t.TBytes":
+	case "ks.kt.TBytes":
 		return byt
-	case "ks.t.F1":
+	case "ks.kt.F1":
 		return &model.Value{Kind: model.KFixed, S: b}
-	case "ks.t.KeyPart":
+	case "ks.kt.KeyPart":
 		base.Fields["a"] = str
 	}
 	return base
